@@ -98,10 +98,11 @@ Goal Proofs.C10_SC.c10_sc_cfg_ok Proofs.C10.w_brace_cfg = true /\ contains_char 
   dom_C10 CSC Proofs.C10.w_brace_pd = true /\ c10_has_items Proofs.C10.w_brace_pd = true /\
   known_C10 CSC (sc_package Proofs.C10.w_brace_cfg) Proofs.C10.w_brace_pd = [] /\
   sc_generate uc_exec Proofs.C10.w_brace_cfg Proofs.C10.w_brace_pd = Ok Proofs.C10.w_brace_text /\
-  contains_sub (lit "case class A (") Proofs.C10.w_brace_text = true /\ contains_sub (lit "}") Proofs.C10.w_brace_text = false /\
+  contains_sub (lit "case class A (") Proofs.C10.w_brace_text = true /\ contains_sub (lit "package onepassword {") Proofs.C10.w_brace_text = true /\
   good_C10_lex CSC Proofs.C10.w_brace_text = true /\
   exists text, dom_C10 CSC Proofs.C10.w_prog = true /\ known_C10 CSC (sc_package Proofs.C10.w_brace_cfg) Proofs.C10.w_prog = [] /\
     sc_generate uc_exec Proofs.C10.w_brace_cfg Proofs.C10.w_prog = Ok text /\ contains_sub (lit "type ULong = Int") text = true /\
+    contains_sub (lit "package object onepassword {") text = true /\
     contains_sub (lit "case class A (") text = true /\ good_C10_lex CSC text = true.
 Proof. exact Props.C10.C10_scala_package_brace_fixed. Qed.
 Print Assumptions Props.C10.C10_scala_package_brace_fixed.
@@ -514,9 +515,19 @@ Goal forall (init : list str) (last : str) (das dps : list sc_decl),
       (List.length das + List.length dps <= n)%nat.
 Proof. exact Props.C10.C10_sc_layout_grammar. Qed.
 Print Assumptions Props.C10.C10_sc_layout_grammar.
+Goal forall (last : str) (das dps : list sc_decl),
+    Proofs.C10_SCGrammar.gname last ->
+    Forall (fun d => Proofs.C10_SCGrammar.c10_scg_decl_ok d /\ Proofs.C10_SCGrammar.decl_top d = false) das ->
+    Forall (fun d => Proofs.C10_SCGrammar.c10_scg_decl_ok d /\ Proofs.C10_SCGrammar.decl_top d = true) dps ->
+    exists n : nat,
+      c10_sc_recognise (lit "package object " ++ last ++ lit " {" ++ sc_nl ++ sc_nl ++ List.concat (map sc_render_decl das) ++ lit "}" ++ sc_nl ++
+                        lit "package " ++ last ++ lit " {" ++ sc_nl ++ sc_nl ++ List.concat (map sc_render_decl dps) ++ lit "}" ++ sc_nl) = Some n /\
+      (List.length das + List.length dps <= n)%nat.
+Proof. exact Props.C10.C10_sc_layout_grammar_dotless. Qed.
+Print Assumptions Props.C10.C10_sc_layout_grammar_dotless.
 Goal forall (uc : unicode) (cfg : sc_config) (pd : parsed) (text : str),
     Proofs.C10_SC.c10_sc_cfg_ok cfg = true -> Proofs.C10_SCGrammarFile.c10_scg_cfg_ok cfg ->
-    dom_C10 CSC pd = true -> Proofs.C10_SCGrammarFile.c10_scg_dom pd -> Proofs.C10_SCGrammarFile.c10_scg_toplevel_ok cfg pd ->
+    dom_C10 CSC pd = true -> Proofs.C10_SCGrammarFile.c10_scg_dom pd ->
     sc_generate uc cfg pd = Ok text ->
     exists n : nat, c10_sc_recognise text = Some n /\
                     (List.length (p_aliases pd) + List.length (p_structs pd) + List.length (p_enums pd) <= n)%nat.
@@ -542,7 +553,6 @@ Proof. exact Props.C10.C10_grammar_scala_simple. Qed.
 Print Assumptions Props.C10.C10_grammar_scala_simple.
 Goal Proofs.C10_SC.c10_sc_cfg_ok Proofs.C10_SCGrammarFile.g_cfg = true /\ Proofs.C10_SCGrammarFile.c10_scg_cfg_ok Proofs.C10_SCGrammarFile.g_cfg /\
   dom_C10 CSC Proofs.C10_SCGrammarFile.g_prog = true /\ Proofs.C10_SCGrammarFile.c10_scg_dom Proofs.C10_SCGrammarFile.g_prog /\
-  Proofs.C10_SCGrammarFile.c10_scg_toplevel_ok Proofs.C10_SCGrammarFile.g_cfg Proofs.C10_SCGrammarFile.g_prog /\
   known_C10 CSC (sc_package Proofs.C10_SCGrammarFile.g_cfg) Proofs.C10_SCGrammarFile.g_prog = [] /\
   known_C10_sc_grammar (sc_package Proofs.C10_SCGrammarFile.g_cfg) Proofs.C10_SCGrammarFile.g_prog = [] /\
   sc_generate uc_exec Proofs.C10_SCGrammarFile.g_cfg Proofs.C10_SCGrammarFile.g_prog = Ok Proofs.C10_SCGrammarFile.g_text /\
@@ -566,14 +576,16 @@ Goal exists text, dom_C10 CSC Proofs.C10_SCGrammarFile.k_prog = true /\
     good_C10_lex CSC text = true /\ c10_sc_recognise text = None.
 Proof. exact Props.C10.C10_scala_keyword_name_refuted. Qed.
 Print Assumptions Props.C10.C10_scala_keyword_name_refuted.
-Goal exists text, Proofs.C10_SC.c10_sc_cfg_ok Proofs.C10_SCGrammarFile.t_cfg = true /\ dom_C10 CSC Proofs.C10_SCGrammarFile.t_prog = true /\
-    known_C10 CSC (sc_package Proofs.C10_SCGrammarFile.t_cfg) Proofs.C10_SCGrammarFile.t_prog = [] /\
-    known_C10_sc_grammar (sc_package Proofs.C10_SCGrammarFile.t_cfg) Proofs.C10_SCGrammarFile.t_prog = ["C10-scala-toplevel-alias"%string] /\
-    sc_generate uc_exec Proofs.C10_SCGrammarFile.t_cfg Proofs.C10_SCGrammarFile.t_prog = Ok text /\
-    starts_with (lit "type UByte = Byte") text = true /\ contains_sub (lit "type Al = Vector[UInt]") text = true /\
-    contains_sub (lit "package") text = false /\ good_C10_lex CSC text = true /\ c10_sc_recognise text = None.
-Proof. exact Props.C10.C10_scala_toplevel_alias_refuted. Qed.
-Print Assumptions Props.C10.C10_scala_toplevel_alias_refuted.
+Goal Proofs.C10_SC.c10_sc_cfg_ok Proofs.C10_SCGrammarFile.t_cfg = true /\ Proofs.C10_SCGrammarFile.c10_scg_cfg_simple Proofs.C10_SCGrammarFile.t_cfg = true /\
+  contains_char sc_ch_dot (sc_package Proofs.C10_SCGrammarFile.t_cfg) = false /\
+  dom_C10 CSC Proofs.C10_SCGrammarFile.t_prog = true /\
+  known_C10 CSC (sc_package Proofs.C10_SCGrammarFile.t_cfg) Proofs.C10_SCGrammarFile.t_prog = [] /\
+  known_C10_sc_grammar (sc_package Proofs.C10_SCGrammarFile.t_cfg) Proofs.C10_SCGrammarFile.t_prog = [] /\
+  Proofs.C10_SCGrammarFile.c10_scg_overrides_simple Proofs.C10_SCGrammarFile.t_prog = true /\
+  sc_generate uc_exec Proofs.C10_SCGrammarFile.t_cfg Proofs.C10_SCGrammarFile.t_prog = Ok Proofs.C10_SCGrammarFile.t_text /\
+  good_C10_lex CSC Proofs.C10_SCGrammarFile.t_text = true /\ c10_sc_recognise Proofs.C10_SCGrammarFile.t_text = Some 6%nat.
+Proof. exact Props.C10.C10_scala_toplevel_alias_fixed. Qed.
+Print Assumptions Props.C10.C10_scala_toplevel_alias_fixed.
 Goal exists text, dom_C10 CSC Proofs.C10_SCGrammarFile.c_prog = true /\
     known_C10 CSC (sc_package Proofs.C10_SCGrammarFile.g_cfg) Proofs.C10_SCGrammarFile.c_prog = [] /\
     known_C10_sc_grammar (sc_package Proofs.C10_SCGrammarFile.g_cfg) Proofs.C10_SCGrammarFile.c_prog = ["C10-scala-content-key"%string] /\
